@@ -127,3 +127,63 @@ Theorem model_passes_spec : forall prog start h0 total evs s settled,
                 c_settled := settled; c_events := evs |} = true.
 Proof. exact Proofs.C14.model_passes_spec. Qed.
 Print Assumptions model_passes_spec.
+
+(* ------------------------------------------------------------------ re-execution of ONE machine
+   [run_history rs = Some ss]: rs are the traces of successive Execute calls on the same
+   SyncMachine instance (each with its own state list as it behaved in that call, start block
+   and chain height at the call), as the code is written: Execute makes a fresh receive buffer
+   and leaves nothing behind.  [run_hist_from true] is the machine that would keep one buffer
+   for its whole life. *)
+
+(* executions of one machine are independent: a history is possible iff every execution is a
+   behaviour of a FRESH machine *)
+Theorem executions_of_one_machine_are_independent : forall rs ss,
+  run_history rs = Some ss <->
+  Forall2 (fun r s => run (c_prog r) (c_start r) (c_h0 r) (c_events r) = Some s) rs ss.
+Proof. exact Proofs.C14.hist_independent. Qed.
+Print Assumptions executions_of_one_machine_are_independent.
+
+(* every message handed to a state was accepted from the channel during THAT execution (it is
+   the oldest message accepted in this execution and not yet handed over), while that state
+   was current *)
+Theorem messages_stay_in_their_execution : forall rs ss r pre k m post,
+  run_history rs = Some ss -> In r rs -> c_events r = pre ++ MRecv k m :: post ->
+  length (nexts pre) = k /\ length (waiters pre) = S k /\
+  nth_error (accepted pre) (length (recvs pre)) = Some m /\ dones pre = [].
+Proof. exact Proofs.C14.hist_messages_stay. Qed.
+Print Assumptions messages_stay_in_their_execution.
+
+(* every execution that finishes ends at ITS start block plus the total duration *)
+Theorem every_execution_ends_at_its_own_end_block : forall rs ss r pre k h post,
+  run_history rs = Some ss -> In r rs -> c_events r = pre ++ MDone (Final k h) :: post ->
+  S k = length (c_prog r) /\ h = (c_start r + sum_dur (c_prog r)) mod two64.
+Proof. exact Proofs.C14.hist_end_block. Qed.
+Print Assumptions every_execution_ends_at_its_own_end_block.
+
+(* what a machine-wide buffer would do: the first state of a later execution is handed a
+   message that arrived during an earlier, aborted execution (accepted by that variant,
+   rejected by the model of the code and by the executable property) *)
+Theorem reused_buffer_refuted :
+  (exists ss, run_hist_from true [] [reuse_run1; reuse_run2] = Some ss) /\
+  In (MRecv 0 1) (c_events reuse_run2) /\ ~ In 1 (accepted (c_events reuse_run2)) /\
+  run_history [reuse_run1; reuse_run2] = None /\ spec_hist [reuse_run1; reuse_run2] = false.
+Proof. exact Proofs.C14.reused_buffer_refuted. Qed.
+Print Assumptions reused_buffer_refuted.
+
+Theorem spec_hist_sound : forall rs, spec_hist rs = true ->
+  forall r, In r rs ->
+  (forall pre k m post, c_events r = pre ++ MRecv k m :: post ->
+     length (nexts pre) = k /\ length (waiters pre) = S k /\
+     nth_error (accepted pre) (length (recvs pre)) = Some m) /\
+  (forall pre k h post, c_events r = pre ++ MDone (Final k h) :: post ->
+     S k = length (c_prog r) /\ h = (c_start r + sum_dur (c_prog r)) mod two64).
+Proof. exact Proofs.C14.spec_hist_sound. Qed.
+Print Assumptions spec_hist_sound.
+
+Theorem model_passes_spec_hist : forall rs,
+  (forall r, In r rs -> c_eager r = true /\
+     match c_total r with Some T => T = sum_dur (c_prog r) | None => True end /\
+     exists s, run_eager (c_prog r) (c_start r) (c_h0 r) (c_events r) = Some s) ->
+  spec_hist rs = true.
+Proof. exact Proofs.C14.model_passes_spec_hist. Qed.
+Print Assumptions model_passes_spec_hist.
